@@ -171,7 +171,7 @@ def generate(tier, seed, ctx):
                             # the parsed cell is adopted with its children (they are new objects)
                             c = p.next
                             p.reg(parsed, 'cell')
-                            p.records.append({'op': 'call', 'call': {'op': 'adopt', 'new': c}, 'tags': [], 'out': {'res': {'new': c}}, 'post': p.project()})
+                            p.finish({'op': 'call', 'call': {'op': 'adopt', 'new': c}, 'tags': [], 'out': {'res': {'new': c}}})
                         s = p.next
                         p.call({'op': 'begin_parse', 'obj': c, 'new': s})
                         if rng.random() < 0.3:
@@ -204,7 +204,7 @@ def generate(tier, seed, ctx):
                     else:
                         p.call({'op': 'store_cell', 'obj': b, 'ref': inner})
                     r = p.records[-1]
-                    if 'res' in r['out']:
+                    if 'res' in r.get('out', {'err': 1}) and not p.dead:
                         c = p.next
                         p.call({'op': 'end_cell', 'obj': b, 'new': c})
         for fill in (0, 7, 8, 1000, 1016, 1017, 1023):
